@@ -29,6 +29,15 @@
 #include "common.h"
 #include <unistd.h>
 #include <sys/wait.h>
+/* crystal names as the spec sees them: printable ASCII as it is; '~', DEL and every byte >= 0x80 as "~XX" (upper-case hex).  The encoding is injective
+ * and keeps the strcmp (unsigned byte) order, which is all the specification needs of a name: equality and order. */
+static void jname(const char *s) {
+  if (!s) { fputs("\"\"", OUT); return; }
+  fputc('"', OUT);
+  for (; *s; s++) { unsigned char c = (unsigned char)*s;
+    if (c == '"' || c == '\\') { fputc('\\', OUT); fputc(c, OUT); } else if (c < 0x20) fprintf(OUT, "\\u%04x", c); else if (c >= 0x7e) fprintf(OUT, "~%02X", c); else fputc(c, OUT); }
+  fputc('"', OUT);
+}
 
 #define MAXPOOL (1 << 18)
 #define MAXH 8
@@ -41,7 +50,7 @@ static long hist_id = 0; static int step = 0;
 
 static void def_event(int id) {
   PoolEnt *p = &pool[id];
-  fprintf(OUT, "{\"k\":\"def\",\"id\":%d,\"name\":", id); jstr(p->name);
+  fprintf(OUT, "{\"k\":\"def\",\"id\":%d,\"name\":", id); jname(p->name);
   fputs(",\"cell\":[", OUT); for (int i = 0; i < 6; i++) { if (i) fputc(',', OUT); jd(p->cell[i]); }
   fprintf(OUT, "],\"builtin\":%d,\"vol\":", p->builtin); jd(p->vol);
   fprintf(OUT, ",\"natom\":%d}\n", p->n);
@@ -74,7 +83,7 @@ static int project(const Crystal_Struct *c) {
 }
 static void j_proj(const Crystal_Struct *c) {
   if (!c) { fputs("{\"pool\":-9,\"name\":\"\",\"vol\":[0,0]}", OUT); return; }
-  fprintf(OUT, "{\"pool\":%d,\"name\":", project(c)); jstr(c->name); fputs(",\"vol\":", OUT); jd(c->volume); fputc('}', OUT);
+  fprintf(OUT, "{\"pool\":%d,\"name\":", project(c)); jname(c->name); fputs(",\"vol\":", OUT); jd(c->volume); fputc('}', OUT);
 }
 static void fill_struct(Crystal_Struct *c, const PoolEnt *p, char *namebuf) {
   strcpy(namebuf, p->name); c->name = namebuf;
@@ -88,7 +97,7 @@ static void j_state(int h) {          /* projection of the touched collection */
   extern Crystal_Array Crystal_arr;
   Crystal_Array *a = h == 0 ? &Crystal_arr : arrs[h];
   fprintf(OUT, ",\"st\":{\"n\":%d,\"alloc\":%d,\"listed\":%d,\"names\":[", a->n_crystal, a->n_alloc, n);
-  for (int i = 0; l && l[i]; i++) { if (i) fputc(',', OUT); jstr(l[i]); xrlFree(l[i]); }
+  for (int i = 0; l && l[i]; i++) { if (i) fputc(',', OUT); jname(l[i]); xrlFree(l[i]); }
   fputs("]}", OUT); xrlFree(l); xrl_clear_error(&e);
 }
 static void ev_open(const char *op) { fprintf(OUT, "{\"k\":\"op\",\"hist\":%ld,\"i\":%d,\"op\":\"%s\"", hist_id, step++, op); }
@@ -151,7 +160,7 @@ static void do_op(char *line) {
     for (int i = 0; i < k; i++) fprintf(OUT, "%s%d", i ? "," : "", a[4 + i]);
     fprintf(OUT, "],\"ok\":%d", rv); ev_err(&e); j_state(a[0]); fputs("}\n", OUT); unlink(path); break; }
   case 'G': { Crystal_Struct *c = Crystal_GetCrystal(pool[a[1]].name, target(a[0]), &e); copies[a[2]] = c;
-    ev_open("Get"); fprintf(OUT, ",\"h\":%d,\"name\":", a[0]); jstr(pool[a[1]].name); fprintf(OUT, ",\"id\":%d,\"ok\":%d,\"r\":", a[2], c != NULL); j_proj(c); ev_err(&e); j_state(a[0]); fputs("}\n", OUT); break; }
+    ev_open("Get"); fprintf(OUT, ",\"h\":%d,\"name\":", a[0]); jname(pool[a[1]].name); fprintf(OUT, ",\"id\":%d,\"ok\":%d,\"r\":", a[2], c != NULL); j_proj(c); ev_err(&e); j_state(a[0]); fputs("}\n", OUT); break; }
   case 'L': { ev_open("List"); fprintf(OUT, ",\"h\":%d,\"ok\":1", a[0]); j_state(a[0]); fputs("}\n", OUT); break; }
   case 'D': { int n; char **l = Crystal_GetCrystalsList(target(a[0]), &n, &e);
     ev_open("Audit"); fprintf(OUT, ",\"h\":%d,\"ok\":1,\"all\":[", a[0]);
@@ -178,7 +187,7 @@ static void run_history(char **lines, int n) {
   if (pid == 0) {
     step = 0;
     fprintf(OUT, "{\"k\":\"reset\",\"hist\":%ld,\"builtin\":[", hist_id);
-    { int nb; char **l = Crystal_GetCrystalsList(NULL, &nb, NULL); for (int i = 0; l && l[i]; i++) { if (i) fputc(',', OUT); jstr(l[i]); xrlFree(l[i]); } xrlFree(l); }
+    { int nb; char **l = Crystal_GetCrystalsList(NULL, &nb, NULL); for (int i = 0; l && l[i]; i++) { if (i) fputc(',', OUT); jname(l[i]); xrlFree(l[i]); } xrlFree(l); }
     fputs("]}\n", OUT);
     for (int i = 0; i < n; i++) do_op(lines[i]);
     end_history();
@@ -204,7 +213,7 @@ static void define_builtin(void) {
 static int random_entry(int nnames) {            /* a fresh pool entry with a name from a small pool and a random cell */
   char name[24]; double cell[6]; Crystal_Atom at[4]; int n = rndint(1, 4);
   int k = rndint(0, nnames - 1);
-  if (k % 7 == 0) snprintf(name, sizeof name, "N%02d_longer_name_x%d", k, k); else snprintf(name, sizeof name, "%c%02d", "NnZa"[k % 4], k);
+  if (k % 7 == 0) snprintf(name, sizeof name, "N%02d_longer_name_x%d", k, k); else if (k % 5 == 1) snprintf(name, sizeof name, "\xc3\xa9%02d", k); else snprintf(name, sizeof name, "%c%02d", "NnZa"[k % 4], k);
   for (int i = 0; i < 3; i++) cell[i] = 2.0 + rndint(0, 640) / 64.0;      /* short exact decimals: the reader takes lines of < 100 bytes */
   if (rndint(0, 2) == 0) { cell[3] = cell[4] = cell[5] = 90.0; } else { for (int i = 3; i < 6; i++) cell[i] = 70.0 + rndint(0, 320) / 8.0; }
   for (int i = 0; i < n; i++) { at[i].Zatom = rndint(1, 92); at[i].fraction = rndint(0, 3) ? 1.0 : 0.5; at[i].x = rndint(0, 1024) / 1024.0; at[i].y = rndint(0, 1024) / 1024.0; at[i].z = rndint(0, 1024) / 1024.0; }
@@ -220,7 +229,7 @@ int cmd_c14(int argc, char **argv) {
     /* fixed pool for model programs: names A..F x 2 geometries -> pool ids base + (name*2 + geom) */
     int base = npool;
     for (int nm = 0; nm < 6; nm++) for (int g = 0; g < 2; g++) {
-      char name[8]; snprintf(name, sizeof name, "%c", 'A' + nm);
+      char name[8]; snprintf(name, sizeof name, "%c", 'A' + nm); if (nm % 3 == 2) snprintf(name, sizeof name, "\xce\xb1%c", 'A' + nm);      /* every third name starts with a byte >= 0x80 */
       double cell[6] = {3.0 + nm + 0.25 * g, 4.0 + 0.5 * g, 5.0, g ? 80.0 : 90.0, 90.0, g ? 100.0 : 90.0};
       Crystal_Atom at[2] = {{14, 1.0, 0, 0, 0}, {8, 0.5, 0.25, 0.5 * g, 0.75}};
       pool_add(name, cell, 2 * g, at, 0, 0.0);          /* geometry 0: a cell with no atoms (the atom pointer of the caller's struct stays non-NULL) */
@@ -291,16 +300,18 @@ int cmd_c14(int argc, char **argv) {
         if (!tgt_builtin) for (int i = 0; i < 2; i++) { Crystal_Struct c; char nb[24]; fill_struct(&c, &pool[ids[i]], nb); Crystal_AddCrystal(&c, ua, NULL); }
         int k = rndint(1, 4); snprintf(path, sizeof path, "%s/xrl-c14f-%d.dat", scratch, (int)getpid()); write_file(path, 0, 0, k, ids + 2 - (rndint(0, 3) == 0));
         FILE *f = fopen(path, "rb"); static char buf[1 << 16]; size_t len = fread(buf, 1, sizeof buf - 8, f); fclose(f);
-        for (int m = rndint(1, 3); m > 0 && len > 2; m--) { size_t pos = (size_t)rndint(0, (int)len - 1); int how = rndint(0, 2);
-          if (how == 0) { memmove(buf + pos, buf + pos + 1, len - pos - 1); len--; } else if (how == 1) { memmove(buf + pos + 1, buf + pos, len - pos); len++; } else buf[pos] = REP[rndint(0, (int)sizeof REP - 2)]; }
+        for (int m = rndint(1, 3); m > 0 && len > 2; m--) { size_t pos = (size_t)rndint(0, (int)len - 1); int how = rndint(0, 3);
+          if (how == 0) { memmove(buf + pos, buf + pos + 1, len - pos - 1); len--; } else if (how == 1) { memmove(buf + pos + 1, buf + pos, len - pos); len++; } else if (how == 2) buf[pos] = REP[rndint(0, (int)sizeof REP - 2)];
+          else { static const char RUN[] = "abcXYZ0123456789(),.:-#"; int L = rndint(22, 140);           /* a long run without blanks: tokens longer than any fixed buffer of the reader */
+            if (len + (size_t)L < sizeof buf - 8) { memmove(buf + pos + L, buf + pos, len - pos); for (int i = 0; i < L; i++) buf[pos + i] = RUN[rndint(0, (int)sizeof RUN - 2)]; len += (size_t)L; } } }
         f = fopen(path, "wb"); fwrite(buf, 1, len, f); fclose(f);
         int n0 = -1, n1 = -1; char **before = Crystal_GetCrystalsList(ua, &n0, NULL);
         extern Crystal_Array Crystal_arr; Crystal_Array *a = tgt_builtin ? &Crystal_arr : ua; int alloc0 = a->n_alloc;
         xrl_error *e = NULL; int rv = Crystal_ReadFile(path, ua, &e); unlink(path);
         char **after = Crystal_GetCrystalsList(ua, &n1, NULL);
         fprintf(OUT, "{\"k\":\"fuzz\",\"it\":%d,\"builtin\":%d,\"ok\":%d,\"err\":%d,\"n\":%d,\"alloc\":[%d,%d],\"before\":[", it, tgt_builtin, rv, e != NULL, a->n_crystal, alloc0, a->n_alloc);
-        for (int i = 0; i < n0; i++) { if (i) fputc(',', OUT); jstr(before[i]); } fputs("],\"after\":[", OUT);
-        int allget = 1; for (int i = 0; i < n1; i++) { if (i) fputc(',', OUT); jstr(after[i]); Crystal_Struct *c = Crystal_GetCrystal(after[i], ua, NULL); if (!c || strcmp(c->name, after[i])) allget = 0; Crystal_Free(c); }
+        for (int i = 0; i < n0; i++) { if (i) fputc(',', OUT); jname(before[i]); } fputs("],\"after\":[", OUT);
+        int allget = 1; for (int i = 0; i < n1; i++) { if (i) fputc(',', OUT); jname(after[i]); Crystal_Struct *c = Crystal_GetCrystal(after[i], ua, NULL); if (!c || strcmp(c->name, after[i])) allget = 0; Crystal_Free(c); }
         fprintf(OUT, "],\"allget\":%d}\n", allget); xrl_clear_error(&e);
         for (int i = 0; i < n0; i++) xrlFree(before[i]); xrlFree(before); for (int i = 0; i < n1; i++) xrlFree(after[i]); xrlFree(after); if (ua) Crystal_ArrayFree(ua);
         fflush(OUT); _exit(0);
